@@ -26,8 +26,8 @@ ASSUMPTIONS = ['ThreadSanitizer (happens-before, clang 14) sees only instrumente
                'schedules are perturbed (seeded yields/sleeps between items, OS scheduling), not enumerated; no XERCES_VERIF_HOOKS sites exist',
                'a data-race report / digest mismatch / crash observed once is evidence (replay = up to 6 attempts); only hangs need 3/3',
                'known findings are stepped over by a main-thread warm-up of exactly the racy facility (counted in excluded_known)']
-BUDGET = {'quick': 40, 'thorough': 600}
-WALLCAP = {'quick': 1800, 'thorough': 5400}
+BUDGET = {'quick': 32, 'thorough': 400}
+WALLCAP = {'quick': 500, 'thorough': 4500}
 
 # ---------------------------------------------------------------------------------------------------------------
 # Known findings (genuine races on the unchanged tree).  id -> (signature predicate on a parsed TSan report,
@@ -83,11 +83,8 @@ KNOWN = {
         what='RangeToken::getCaseInsensitiveToken caches a token owned by the calling regex in the process-wide category token without synchronisation (data race; use-after-free once that regex is destroyed)'),
 }
 ACTIVE = [
-    'C17-traverseschema-wsfacets-lazy',
     'C17-lockedpool-lazy-contentmodel',
     'C17-shared-regex-lazy-map',
-    'C17-iskidok-lazy-table',
-    'C17-rangetokenmap-dcl',
     'C17-rangetoken-casei-cache',
 ]
 WARMABLE = [k for k in ACTIVE if KNOWN[k]['warm']]
@@ -558,7 +555,7 @@ def replay(case, ctx):
         # witness of a known finding: "fails" while the finding's report still appears (no warm-up, up to 6 attempts)
         kid = case['witness_of']
         if kid not in KNOWN: return True, 'unknown finding id'
-        for _ in range(6):
+        for _ in range(6 if kid in ACTIVE else 3):      # fixed findings (regress/): 3 attempts keep the regression replay cheap
             r = run_once(case, halt=False)
             if kid in r['known'] or (kid not in ACTIVE and r['status'] == 'fail'):
                 return False, 'KNOWN %s still present: %s' % (kid, KNOWN[kid]['what'])
